@@ -70,6 +70,22 @@ def split_lines(string: str, keepends: bool = False) -> "list[str]":
         return re.split(r'\n|\r\n|\r', string)
 
 
+def _get_normal_name(orig_enc: str) -> str:
+    """
+    Imitates ``get_normal_name`` in CPython's tokenizer.c: the spellings of
+    utf-8 and latin-1 are unified, which also accepts the Emacs style suffixes
+    in ``# -*- coding: utf-8-unix -*-``.
+    """
+    # Only care about the first 12 characters.
+    enc = orig_enc[:12].lower().replace("_", "-")
+    if enc == "utf-8" or enc.startswith("utf-8-"):
+        return "utf-8"
+    if enc in ("latin-1", "iso-8859-1", "iso-latin-1") or \
+            enc.startswith(("latin-1-", "iso-8859-1-", "iso-latin-1-")):
+        return "iso-8859-1"
+    return orig_enc
+
+
 def python_bytes_to_unicode(
     source: Union[str, bytes], encoding: str = 'utf-8', errors: str = 'strict'
 ) -> str:
@@ -100,7 +116,7 @@ def python_bytes_to_unicode(
                 e = possible_encoding.group(1)
                 if not isinstance(e, str):
                     e = str(e, 'ascii', 'replace')
-                return e
+                return _get_normal_name(e)
             if not re.match(br'[ \t\f]*(?:#|$)', line):
                 break
         # the default if nothing else has been set -> PEP 263
